@@ -454,11 +454,17 @@ func realFlow(raw json.RawMessage) any {
 		}
 		return map[string]any{"err": "load"}
 	}
-	out := map[string]any{"secrets": secretsList(p.Secrets), "configs": configsList(p.Configs)}
 	lossy := false
 	for _, v := range a.Env {
 		lossy = lossy || yamlV3Loses(v)
 	}
+	return flowOut(p, lossy)
+}
+
+// flowOut: the typed secrets / configs of the loaded project and the two sections of its four renderings
+func flowOut(p *types.Project, lossy bool) any {
+	out := map[string]any{"secrets": secretsList(p.Secrets), "configs": configsList(p.Configs)}
+	var err error
 	for _, m := range []struct {
 		key     string
 		json    bool
